@@ -1,5 +1,6 @@
 CONSTANTS
   Mod <- TheMod
+  ByteExact = TRUE
 INIT TInit
 NEXT TNext
 INVARIANTS RoundTrip WireCanonical
